@@ -8,7 +8,6 @@ open SeaQ.Escape SeaQ.Render SeaQ.Stmt SeaQ.SafeN
 
 variable {d : Backend}
 
-theorem B_bad : B d [.bad] := by bal
 theorem B_id (n : String) : B d [.id n] := by bal
 theorem B_p (v : Val) : B d [.p v] := by bal
 theorem B_c (v : Val) : B d [.c v] := by bal
@@ -324,7 +323,9 @@ theorem b_ex (d : Backend) : ∀ (e : Ex), B d (rEx d e)
   | .value v => by simp only [rEx]; exact B_p v
   | .values vs => by simp only [rEx]; exact B.paren (b_rVals vs true)
   | .cust s => by simp only [rEx]; exact B_raw _
-  | .custWith t vals => by simp only [rEx]; left; simp [bad, badP]
+  | .custWith t vals => by
+    simp only [rEx]
+    exact B.app (B_ite B_nil B_mark) (B_template t _ (b_exeach d vals))
   | .keyword kw => by simp only [rEx]; exact b_rKw kw
   | .asEnum ty e => by
     simp only [rEx]
@@ -351,6 +352,14 @@ theorem b_exlist (d : Backend) : ∀ (first : Bool) (l : ExList), B d (rExList d
   | first, .cons e r => by
     simp only [rExList]
     exact B.app (B.app (b_sep first ", " (by decide)) (b_ex d e)) (b_exlist d false r)
+theorem b_exeach (d : Backend) : ∀ (l : ExList), ∀ ps ∈ rExEach d l, B d ps
+  | .nil => by simp [rExEach]
+  | .cons e r => by
+    intro ps hps
+    simp only [rExEach, List.mem_cons] at hps
+    rcases hps with h | h
+    · subst h; exact b_ex d e
+    · exact b_exeach d r ps h
 theorem b_optex (d : Backend) (pre : String) : ∀ (o : Option Ex), tok pre = true → B d (rOptEx d pre o)
   | none => fun _ => by simp only [rOptEx]; exact B_nil
   | some e => fun h => by simp only [rOptEx]; exact B.app (B_S pre h) (b_ex d e)
